@@ -1747,7 +1747,7 @@ class Namelist(Statement):
             if s.endswith(","):
                 s = s[:-1].rstrip()
             items.append((name, s))
-            line = line[i + 1 :].lstrip()
+            line = line[i:].lstrip()
         self.items = items
         return
 
